@@ -37,7 +37,7 @@ def signature(v) -> str:
 
 
 class Outcome:
-    __slots__ = ("status", "canon", "value", "lines", "ws", "wsk", "fault_site", "evict_site", "exc", "env_changed",
+    __slots__ = ("status", "canon", "value", "lines", "ws", "wsk", "wsp", "fault_site", "evict_site", "exc", "env_changed",
                  "poke_damage")
 
     def __init__(self):
@@ -47,6 +47,7 @@ class Outcome:
         self.lines = 0
         self.ws = None
         self.wsk = None
+        self.wsp = None
         self.fault_site = None
         self.evict_site = None
         self.exc = None
@@ -169,13 +170,14 @@ def exec_step(world: W.World, step: dict, ctx: seam.Ctx, fault=None, fp=False, e
     if ctx.trace_ws:
         out.ws = ctx.ws_ordinals
         out.wsk = ctx.ws_events
+        out.wsp = ctx.ws_post
     if isinstance(out.exc, RecursionError):
         # how many lines run before the interpreter gives up depends on the depth of the caller's stack and on what
         # else the interpreter happens to have on it; neither the count nor positions inside such a step are part of
         # a repeatable history, so nothing is aimed into it
         out.lines = 0
         if ctx.trace_ws:
-            out.ws, out.wsk = [], []
+            out.ws, out.wsk, out.wsp = [], [], []
     env1 = env_state()
     if env1 != (env_fp if fp else env0):
         out.env_changed = [a for a, b in zip(("np.geterr", "np.get_printoptions", "sys.getrecursionlimit",
@@ -447,6 +449,15 @@ def _nonfinite(x, depth=0) -> bool:
     return False
 
 
+def post_of(h: dict, o: int):
+    """ordinal right after the write line that began at ordinal `o` of step history entry `h` (None if unknown)"""
+    for s_, p_ in h.get("wsp") or []:
+        if s_ == o:
+            return p_
+    after = [w for w in (h.get("ws") or []) if w > o]
+    return after[0] if after else None
+
+
 def _advanced(j) -> bool:
     """an (encoded) index with a mask or an integer array in it: numpy's advanced indexing, whose result is a copy the
     caller owns -- unlike slices and integers, which give views"""
@@ -517,6 +528,7 @@ def golden_run(case: dict, rng: random.Random | None, stats: dict) -> tuple[list
             continue
         out = exec_step(world, step, ctx)
         h["status"], h["ans"], h["lines"], h["ws"], h["wsk"] = out.status, out.canon, out.lines, out.ws, out.wsk
+        h["wsp"] = out.wsp
         history.append(h)
         stats["steps"] += 1
         stats["lines"] += out.lines
